@@ -293,11 +293,23 @@ def search(chk, broken):
         except pbc.ZeroFindingError as e:
             if e.iterations_count > 1:
                 chk.failures.append(Failure('iteration-cap-ignored', f'{e.iterations_count} iterations with cMaxIterations=1', {'op': 'itercap'}))
+        good = rng.choice([0.3, 0.7, 1.25])
+        tcm.set_global_max_calc_step_size(U.Foot(good))
+        in_force = tcm.get_global_max_calc_step_size() >> U.Foot
+        in_force_built = pbc.Calculator()._calc._config.max_calc_step_size_feet
+        bad = rng.choice([0, -1.0, U.Foot(0), U.Inch(-3)])
         try:
-            tcm.set_global_max_calc_step_size(rng.choice([0, -1.0, U.Foot(0)]))
+            tcm.set_global_max_calc_step_size(bad)
             chk.failures.append(Failure('nonpositive-step-accepted', 'a non-positive global step was accepted', {'op': 'set'}))
         except ValueError:
             pass
+        # a REJECTED value leaves the setting as it was: for the getter and for calculators built afterwards
+        now = tcm.get_global_max_calc_step_size() >> U.Foot
+        built = pbc.Calculator()._calc._config.max_calc_step_size_feet
+        if now != in_force or built != in_force_built:
+            chk.failures.append(Failure('rejected-step-stored', f'after the rejected set_global_max_calc_step_size({bad!r}) the global step reads {now} ft and a new calculator '
+                                                                f'gets {built} ft; the value in force before was {in_force} ft',
+                                        {'op': 'rejected-set', 'in_force_ft': in_force, 'rejected': repr(bad), 'global_after_ft': now, 'new_calculator_ft': built}))
         tcm.reset_globals()
         if pbc.Calculator()._calc._config.max_calc_step_size_feet != 0.5:
             chk.failures.append(Failure('default-step', 'default step after reset is not 0.5 ft', {'op': 'default'}))
